@@ -14,6 +14,7 @@ def run(chk):
     thorough = chk.tier == 'thorough'
     L = 4 if thorough else 3
     common.run_families(chk, [('compare', L, 2, L)], CLASSES)
+    common.mc_core_vacuity(chk, 'compare')
     chk.exhaustive = True
     common.run_random(chk, drivers.c13_program, 6000 if thorough else 1500, 13)
     chk.flush()
